@@ -559,6 +559,8 @@ def check_c01(tier):
         "batches": [batch_cov(i["label"], b) for i, b in results],
         "fault_kinds_fired": fault_kinds,
         "artefacts_checked": sum_counter(results, "artefacts_checked"),
+        "registry_lookups_of_neighbouring_OIDs(from_oid; accepted ones are signed with and judged by OpenSSL)": sum_counter(results, "oid_probe_lookups"),
+        "neighbouring_OIDs_accepted_outside_the_table": sum_counter(results, "oid_probe_accepted_outside_table"),
         "artefacts_by_kind": {k: sum_counter(results, "artefact_" + k) for k in ("cert", "csr", "crl")},
         "signatures_verified_by_openssl": sum_counter(results, "openssl_verified"),
         "remote_exact_bytes_checked": sum_counter(results, "remote_exact_bytes_checked"),
@@ -738,6 +740,8 @@ def check_c15(tier):
         "L1_observations_compared_with_pristine_reference": sum_counter(results, "compared_with_pristine"),
         "L1_twin_observations(equal parameters, other object history)": sum_counter(results, "twin_observations"),
         "L1_rustls_cert_gen_library_histories(one shared Ca, subject keys repeated through the getrandom seam)": sum_counter(results, "lib_histories"),
+        "L1_observations_nested_in_a_signer_callback": sum_counter(results, "observations_nested_in_a_signer_callback"),
+        "L1_floods_of_1100_to_4200_other_issuers": sum_counter(results, "noise_flood-of-issuers"),
         "L4_replicas": rep_info,
         "L3_miri": miri_info,
         "fault_kinds_fired": {"signer_Err_during_noise_generation": sum_counter(results, "noise_failing-gen"),
@@ -764,13 +768,16 @@ MIRI_DIR = os.path.join(SIM, "simmiri")
 
 
 def miri_cmd(flags, scenario, threads, extra_features=()):
+    # a pseudo-feature "keys=rsa" selects the key kind of the scenario (argv), not a cargo feature
+    keys = [f.split("=", 1)[1] for f in extra_features if f.startswith("keys=")]
+    extra_features = tuple(f for f in extra_features if not f.startswith("keys="))
     env = cargo_env(True)
     env["MIRIFLAGS"] = flags
     env["CARGO_TARGET_DIR"] = os.path.join(TARGET, "miri")
     cmd = ["cargo", "+nightly", "miri", "run", "--offline"]
     if extra_features:
         cmd += ["--features", ",".join(extra_features)]
-    cmd += ["--", str(scenario), str(threads)]
+    cmd += ["--", str(scenario), str(threads)] + keys[:1]
     return cmd, env
 
 
@@ -809,10 +816,11 @@ def check_miri(prop, tier, vseed):
                         "shared issuer unchanged", "Miri data-race and UB detection"],
             "configurations": {"crypto-less": "real code only (rcgen, yasna, time, pem); pure-Rust remote signer",
                                "fakering": "rcgen with the ring feature on top of sim/fakering, a STUB of ring's API (real SHA-256, "
-                                           "stand-ins for everything else): hashed key identifiers, automatic serials, local keys"}}
+                                           "stand-ins for everything else): hashed key identifiers, automatic serials, local Ed25519 keys",
+                               "fakering-rsa": "the same with local RSA keys (stub) shared by the threads: rcgen's RSA signing path with its signature buffer"}}
     unlisted = 0
     with BuildLock("miri"):
-        for config, feats in (("crypto-less", ()), ("fakering", ("fakering",))):
+        for config, feats in (("crypto-less", ()), ("fakering", ("fakering",)), ("fakering-rsa", ("fakering", "keys=rsa"))):
             for k in range(scenarios):
                 scenario = (vseed + k) % (1 << 32)
                 threads = 3 + (k % 2)
@@ -914,6 +922,7 @@ def check_c18(tier):
         "webpki_chain_verified": sum_counter(results, "webpki_chain_verified"),
         "fault_kinds_fired": dict(sorted(faults.items())),
         "invocations_in_which_a_neighbour_won_the_mkdir_race(not a fault: success demanded)": sum_counter(results, "neighbour_won_mkdir_race"),
+        "invocations_started_in_a_removed_working_directory(absolute output path; success demanded)": sum_counter(results, "invocations_started_in_a_removed_directory"),
         "faults_fired_total": sum_counter(results, "faults_fired"),
         "faults_armed_but_never_reached": sum_counter(results, "faults_armed_not_reached"),
         "enumerated_fault_points": sum_counter(results, "enum_fault_points"),
@@ -957,6 +966,48 @@ def cargo_check_config(features, hook):
     with BuildLock("matrix-" + ("on" if hook else "off")):
         p = subprocess.run(cmd, cwd=REPO, env=cargo_env(hook), stdout=subprocess.PIPE, stderr=subprocess.STDOUT, text=True)
     return p.returncode == 0, p.stdout
+
+
+def check_packaged_crate(tier):
+    """The crate as users get it: `cargo package` of rcgen (from the working tree), unpacked
+    outside the workspace, compiled in a few of its advertised feature sets. Paths that only
+    resolve inside the checkout (include_str!, build scripts, path dependencies) show up here and
+    nowhere else. The unpacked copy lives under /tmp for the duration of the step only; compiled
+    dependencies are shared with the feature-matrix builds."""
+    tag = SHADOW or "main"
+    scratch = "/tmp/rcgen-verif-pkg-" + tag
+    shutil.rmtree(scratch, ignore_errors=True)
+    os.makedirs(scratch)
+    tdir = os.path.join(TARGET, "matrix-off")
+    results = []
+    try:
+        with BuildLock("matrix-off"):
+            p = subprocess.run(["cargo", "package", "-p", "rcgen", "--offline", "--allow-dirty", "--no-verify", "--target-dir", os.path.join(scratch, "pkg")],
+                               cwd=REPO, env=cargo_env(False), stdout=subprocess.PIPE, stderr=subprocess.STDOUT, text=True)
+        if p.returncode != 0:
+            return [{"features": ["<cargo package>"], "ok": False, "out": p.stdout}]
+        crates = [f for f in os.listdir(os.path.join(scratch, "pkg", "package")) if f.endswith(".crate")]
+        if len(crates) != 1:
+            raise HarnessError("cargo package left %r" % crates)
+        subprocess.run(["tar", "xzf", os.path.join(scratch, "pkg", "package", crates[0]), "-C", scratch], check=True)
+        src = os.path.join(scratch, crates[0][:-len(".crate")])
+        # the versions the workspace is locked to (all in the offline cache)
+        shutil.copy(os.path.join(REPO, "Cargo.lock"), os.path.join(src, "Cargo.lock"))
+        sets = [None, ["pem"], ["ring", "pem", "x509-parser"], ["aws_lc_rs", "pem"]]
+        if tier != "quick":
+            sets += [[], ["crypto", "ring"], ["aws_lc_rs", "x509-parser", "zeroize"], ["pem", "x509-parser", "zeroize"]]
+        for feats in sets:
+            cmd = ["cargo", "check", "--offline", "--lib", "--target-dir", tdir]
+            if feats is not None:
+                cmd += ["--no-default-features"]
+                if feats:
+                    cmd += ["--features", ",".join(feats)]
+            with BuildLock("matrix-off"):
+                p = subprocess.run(cmd, cwd=src, env=cargo_env(False), stdout=subprocess.PIPE, stderr=subprocess.STDOUT, text=True)
+            results.append({"features": ["<packaged crate>"] + (["<default>"] if feats is None else feats), "ok": p.returncode == 0, "out": p.stdout})
+    finally:
+        shutil.rmtree(scratch, ignore_errors=True)
+    return results
 
 
 def report_simple_violation(prop, rel, doc, what):
@@ -1091,6 +1142,10 @@ def replay_build(path):
     if r.get("what") == "cli":
         cli, err = build_cli(r["backend"])
         ok, out = cli is not None, err
+    elif r.get("what") == "packaged":
+        res = check_packaged_crate("thorough")
+        bad = [x for x in res if not x["ok"]]
+        ok, out = not bad, (bad[0]["out"] if bad else "")
     else:
         ok, out = cargo_check_config(r["features"], r.get("hook", False))
     if not ok:
@@ -1126,6 +1181,16 @@ def check_c16(tier):
             doc = {"property": "C16", "kind": "build-failure", "what": "cli", "backend": backend,
                    "violation": {"class": "c16-does-not-build", "detail": detail}, "compiler_output_tail": err[-3000:]}
             unlisted += report_simple_violation("C16", os.path.join("replays", "C16-build-cli-%s.json" % backend), doc, detail)
+    # the crate as packaged for publication, compiled outside the workspace
+    for r in check_packaged_crate(tier):
+        boot.append({"features": r["features"], "ok": r["ok"]})
+        if not r["ok"]:
+            errs = [l for l in r["out"].splitlines() if l.startswith("error")]
+            detail = "the packaged rcgen crate (cargo package, unpacked outside the workspace) does not compile with [%s]: %s" % (",".join(r["features"][1:]), "; ".join(errs[:3]))
+            rel = os.path.join("replays", "C16-build-packaged-%s.json" % feat_tag([f.strip("<>") for f in r["features"][1:]]))
+            doc = {"property": "C16", "kind": "build-failure", "what": "packaged", "features": r["features"][1:], "hook": False,
+                   "violation": {"class": "c16-does-not-build", "detail": detail}, "compiler_output_tail": r["out"][-3000:]}
+            unlisted += report_simple_violation("C16", rel, doc, detail)
     # informational only: cargo features are additive, and rcgen's source lets aws-lc-rs win when
     # both back ends are enabled (what `rustls-cert-gen --features aws_lc_rs` without
     # --no-default-features asks for). The property's quantifier lists the back ends as
